@@ -241,6 +241,7 @@ def _drive_producer(proxy: Any, m: dict[str, Any], op: dict[str, Any], impl: Any
         ev.append(["error", e.error_type, e.error_message])
         terminal = True
     if op["end"] == "cancel":
+        res["inv_before_cancel"] = len(impl.inv)
         try:
             sess.cancel()
             sess.cancel()  # idempotent by contract; the hook must still run at most once
@@ -306,6 +307,7 @@ def _drive_exchange(proxy: Any, m: dict[str, Any], op: dict[str, Any], impl: Any
         ab.release()
     valid = streams.perturb_input("none", m["in_cols"], svcgen.make_rows("in", 99, 1, m["in_cols"]))
     if op["end"] == "cancel":
+        res["inv_before_cancel"] = len(impl.inv)
         try:
             sess.cancel()
             sess.cancel()
@@ -524,6 +526,9 @@ def _run_connection(chk: Check, job: dict[str, Any]) -> None:
             if len(cancels) > 1:
                 bad = True
                 chk.violation(f"on_cancel_ran_twice:{fam}:{job['kind']}", "on_cancel hook ran more than once for one stream", {**wit, "cancels": len(cancels)})
+            if "inv_before_cancel" in res and any(e[0] == "step" for e in inv[max(0, res["inv_before_cancel"] - inv0) :]):
+                bad = True
+                chk.violation(f"process_after_cancel:{fam}:{job['kind']}", "state processed again after the client cancelled", {**wit, "inv": [e[:3] for e in inv]})
             if cancels:
                 chk.hit("on_cancel_observed")
                 ci = inv.index(cancels[0])
